@@ -227,6 +227,7 @@ def prove(solver, goal, timeout_ms=2000):
 
 
 def _prove_eq(solver, prem, lhs, rhs, timeout_ms):
+    depth0 = solver.num_scopes()
     solver.push()
     try:
         solver.set("timeout", timeout_ms)
@@ -302,7 +303,10 @@ def _prove_eq(solver, prem, lhs, rhs, timeout_ms):
 
         return rec(0, {})
     finally:
-        solver.pop()
+        # leave the solver exactly as it was found: an exception raised inside a nested case (GiveUp, solver error)
+        # must not leave a premise or a case condition behind as a hypothesis of later queries
+        while solver.num_scopes() > depth0:
+            solver.pop()
         solver.set("rlimit", 0)
 
 
